@@ -204,7 +204,11 @@ class FindCacheFile(namedtuple('FindCacheFile', ['regen_files', 'cache'])):
 
 
 def write_depfile(env, path, output, seen_dirs, makeify=False):
-    with open(path.string(env.base_dirs), 'w') as f:
+    # Write to a temporary file and rename it into place, so that an
+    # interrupted run never leaves an empty depfile (which would make the
+    # build backend forget about the directories it should watch).
+    realpath = path.string(env.base_dirs)
+    with open(realpath + '.tmp', 'w') as f:
         # Since this file is in the build dir, we can use relative dirs for
         # deps also in the build dir.
         roots = env.base_dirs.copy()
@@ -221,6 +225,7 @@ def write_depfile(env, path, output, seen_dirs, makeify=False):
             for i in seen_dirs:
                 out.write(i.string(roots), Syntax.target)
                 out.write_literal(':\n')
+    os.replace(realpath + '.tmp', realpath)
 
 
 def _path_type(path):
@@ -342,9 +347,13 @@ def find_check_cache(context):
         return
 
     # Check if any of the explicit inputs are newer than any of the explicit
-    # outputs. If so, we definitely want to regenerate the build files.
+    # outputs. If so, we definitely want to regenerate the build files. The
+    # same holds if the cache itself is newer than the outputs: it's saved
+    # *before* the outputs are written, so this can only mean that the last
+    # regeneration didn't get as far as writing them.
+    cache_path = context.env.builddir.append(FindCacheFile.cachefile)
     if ( max(_path.getmtime_ns(i, context.env.base_dirs, strict=False)
-             for i in regen_files.inputs) >
+             for i in regen_files.inputs + [cache_path]) >
          min(_path.getmtime_ns(i, context.env.base_dirs, strict=False)
              for i in regen_files.outputs) ):
         return
